@@ -108,20 +108,27 @@ fn gvar_events(rng: &mut Rng, ev: &mut Vec<Value>, rep: &mut Report) {
     let ntuples = 1 + rng.below(3) as usize;
     let mut variations = vec![];
     let mut inputs = vec![];
-    let peaks_pool: Vec<Vec<i16>> = if axes == 1 { vec![vec![16384], vec![-16384], vec![8192]] } else { vec![vec![16384, 0], vec![0, 16384], vec![16384, 16384], vec![-16384, 8192]] };
-    for t in 0..ntuples {
-        let peak = peaks_pool[(t + rng.below(4) as usize) % peaks_pool.len()].clone();
+    // tents (start, peak, end) in 2.14 units: implied ones, and explicit intermediate regions including peaks that
+    // coincide with an edge of the region
+    const ONE: i16 = 16384;
+    let implied = |p: i16| (p.min(0), p, p.max(0));
+    let axis_pool: Vec<(i16, i16, i16)> = vec![implied(ONE), implied(-ONE), implied(ONE / 2), (ONE / 2, ONE, ONE), (-ONE, -ONE, -ONE / 2), (ONE / 4, ONE / 2, ONE / 4 * 3), (0, ONE / 4, ONE), (ONE / 2, ONE / 2, ONE), (-ONE, -ONE / 2, -ONE / 2), (0, 0, 0)];
+    for _t in 0..ntuples {
+        let mut tent: Vec<(i16, i16, i16)> = (0..axes).map(|_| *rng.pick(&axis_pool)).collect();
+        if tent.iter().all(|t| t.1 == 0) {
+            tent[0] = axis_pool[rng.below(9) as usize];
+        }
         // (accumulated deltas beyond +-32767 do not fit the scaler's 16.16 arithmetic: the extreme values are
         // exercised by the packed-delta events, the application check stays inside the representable range)
         let dxs: Vec<i64> = (0..npts + 4).map(|i| if i >= npts && i != npts + 1 { 0 } else { *rng.pick(&[0i64, 0, 1, 2, -3, 10, 127, -128, 128, -129, 300, -2000, 4000]) }).collect();
         let dys: Vec<i64> = (0..npts + 4).map(|i| if i >= npts { 0 } else { *rng.pick(&[0i64, 0, 0, 1, -1, 5, 200]) }).collect();
         let Some((iev, out)) = iup_event(&xs, &ys, &dxs, &dys, &ends1, tol100, rep) else { return };
         ev.push(iev);
-        let tents: Vec<Tent> = peak.iter().map(|p| Tent::new(F2Dot14::from_bits(*p), None)).collect();
+        let tents: Vec<Tent> = tent.iter().map(|t| Tent::new(F2Dot14::from_bits(t.1), if *t == implied(t.1) { None } else { Some((F2Dot14::from_bits(t.0), F2Dot14::from_bits(t.2))) })).collect();
         variations.push(GlyphDeltas::new(tents, out.clone()));
-        inputs.push((peak, dxs, dys, out));
+        inputs.push((tent, dxs, dys, out));
     }
-    let case = json!({"kind": "gvar-case", "xs": xs, "ys": ys, "ends": ends1, "tuples": inputs.iter().map(|(p, dx, dy, _)| json!({"peak": p, "dxs": dx, "dys": dy})).collect::<Vec<_>>()});
+    let case = json!({"kind": "gvar-case", "xs": xs, "ys": ys, "ends": ends1, "tuples": inputs.iter().map(|(p, dx, dy, _)| json!({"tent": p, "dxs": dx, "dys": dy})).collect::<Vec<_>>()});
     let glyph = Glyph::Simple(SimpleGlyph {
         bbox: Bbox { x_min: *xs[..npts].iter().min().unwrap() as i16, y_min: *ys[..npts].iter().min().unwrap() as i16, x_max: *xs[..npts].iter().max().unwrap() as i16, y_max: *ys[..npts].iter().max().unwrap() as i16 },
         contours,
@@ -150,8 +157,41 @@ fn gvar_events(rng: &mut Rng, ev: &mut Vec<Value>, rep: &mut Report) {
     if tuples.len() != inputs.len() {
         return rep.violation(&format!("{} tuples read back, {} written", tuples.len(), inputs.len()), case);
     }
-    for (t, (peak, dxs, dys, out)) in tuples.iter().zip(inputs.iter()) {
-        let peak_ok = t.peak().values.iter().map(|v| v.get().to_bits()).collect::<Vec<_>>() == *peak;
+    for (t, (tent, dxs, dys, out)) in tuples.iter().zip(inputs.iter()) {
+        let peak_ok = t.peak().values.iter().map(|v| v.get().to_bits()).collect::<Vec<_>>() == tent.iter().map(|t| t.1).collect::<Vec<_>>();
+        // the tuple's scalar at every combination of per-axis probe coordinates (edges, peak, midpoints, 0, +-1)
+        let per_axis: Vec<Vec<i16>> = tent.iter().map(|(s, p, e)| {
+            let mut v: Vec<i16> = vec![*s, *p, *e, ((*s as i32 + *p as i32) / 2) as i16, ((*p as i32 + *e as i32) / 2) as i16, 0, ONE, -ONE];
+            if axes == 1 {
+                // off-by-one-unit probes only with one axis: the exact product of two such scalars exceeds TLC's integers
+                v.extend([p.saturating_add(1), p.saturating_sub(1), s.saturating_add(1), e.saturating_sub(1)]);
+            }
+            v.sort();
+            v.dedup();
+            v
+        }).collect();
+        let mut probes = vec![];
+        let mut idx = vec![0usize; axes];
+        loop {
+            let coords: Vec<i16> = (0..axes).map(|a| per_axis[a][idx[a]]).collect();
+            let fc: Vec<F2Dot14> = coords.iter().map(|c| F2Dot14::from_bits(*c)).collect();
+            let sc = t.compute_scalar(&fc).map(|f| f.to_bits() as i64).unwrap_or(0);
+            let sf = t.compute_scalar_f32(&fc).map(|f| (f as f64 * 65536.0).round() as i64).unwrap_or(0);
+            probes.push(json!({"coords": coords, "scalar": sc, "scalar_f32": sf}));
+            let mut a = 0;
+            while a < axes {
+                idx[a] += 1;
+                if idx[a] < per_axis[a].len() {
+                    break;
+                }
+                idx[a] = 0;
+                a += 1;
+            }
+            if a == axes {
+                break;
+            }
+        }
+        ev.push(json!({"op": "tuple_scalar", "region": tent.iter().map(|t| vec![t.0, t.1, t.2]).collect::<Vec<_>>(), "probes": probes}));
         let mut explicit = vec![];
         let mut rdx = vec![0i64; npts + 4];
         let mut rdy = vec![0i64; npts + 4];
@@ -181,10 +221,11 @@ fn gvar_events(rng: &mut Rng, ev: &mut Vec<Value>, rep: &mut Report) {
     let Some(og) = f.outline_glyphs().get(GlyphId::new(1)) else { return rep.violation("synthetic variable font has no outline glyph 1", case) };
     // locations: default, each tuple's peak, halfway to the first peak
     let mut locs: Vec<Vec<i16>> = vec![vec![0; axes]];
-    for (peak, ..) in &inputs {
-        locs.push(peak.clone());
+    for (tent, ..) in &inputs {
+        locs.push(tent.iter().map(|t| t.1).collect());
+        locs.push(tent.iter().map(|t| ((t.0 as i32 + t.1 as i32) / 2) as i16).collect());
+        locs.push(tent.iter().map(|t| t.2).collect());
     }
-    locs.push(inputs[0].0.iter().map(|p| p / 2).collect());
     for loc in locs {
         let mut l = Location::new(axes);
         for (i, c) in l.coords_mut().iter_mut().enumerate() {
@@ -205,15 +246,14 @@ fn gvar_events(rng: &mut Rng, ev: &mut Vec<Value>, rep: &mut Report) {
         for p in 0..npts {
             let (mut ex, mut ey) = (xs[p] as f64, ys[p] as f64);
             let mut slack = 0.51;
-            for (peak, dxs, dys, out) in &inputs {
+            for (tent, dxs, dys, out) in &inputs {
                 let mut s = 1.0f64;
-                for (i, pk) in peak.iter().enumerate() {
+                for (i, (st, pk, en)) in tent.iter().enumerate() {
                     if *pk == 0 {
                         continue;
                     }
-                    let c = loc[i] as f64;
-                    let pk = *pk as f64;
-                    s *= if c == pk { 1.0 } else if c == 0.0 || (c < 0.0) != (pk < 0.0) || c.abs() > pk.abs() { 0.0 } else { c / pk };
+                    let (c, st, pk, en) = (loc[i] as f64, *st as f64, *pk as f64, *en as f64);
+                    s *= if c == pk { 1.0 } else if c <= st || c >= en { 0.0 } else if c < pk { (c - st) / (pk - st) } else { (en - c) / (en - pk) };
                 }
                 // the left phantom point's delta moves the origin
                 ex += s * (dxs[p] as f64 - dxs[npts] as f64);
